@@ -5,6 +5,7 @@ delivery is the message-level fold (SrvSteps / CliSteps), each message is the on
 (WfSteps / WfPublish, by the payload round trip C13 and the AMF0 round trip C04 behind it).
 -/
 import Rml.Lemmas.WfPublish
+import Rml.Lemmas.Interop
 namespace Rml.Workflow
 open Rml Rml.Bytes Rml.Chunk Rml.Amf0 Rml.Msgs Rml.Sess Rml.SerHist Rml.Emit Rml.Link Rml.Exchange Rml.WfSteps
 
@@ -408,5 +409,65 @@ theorem publish_workflow (ccfg : Cli.Config) (scfg : Srv.Config) (now : Nat) (ap
   refine ⟨p6, p7, c6, hrs6, hd7, hin6, by rw [hc6], by rw [hc6], by decide, ?_, ?_, hstream⟩
   · rw [hv6]; exact hv3c
   · rw [hv6]; exact hv3a
+
+/-! ### media and stop on a publishing pair -/
+
+theorem publishAll_des (items : List Interop.Item) : ∀ (c c' : Cli.State) (ps : List Ser.Packet) (sid : Nat),
+    c.st = .publishing → c.activeStream = some sid → sid < 4294967296 → (∀ it ∈ items, it.ts < 4294967296) →
+    Interop.publishAll c items = some (c', ps) → c'.des = c.des := by
+  induction items with
+  | nil =>
+    intro c c' ps sid _ _ _ _ h
+    simp only [Interop.publishAll, Option.some.injEq, Prod.mk.injEq] at h
+    rw [← h.1]
+  | cons it rest ih =>
+    intro c c' ps sid hs ha hsid hts h
+    simp only [Interop.publishAll] at h
+    split at h
+    · rename_i c1 p hpm
+      split at h
+      · rename_i c2 ps2 hrest
+        simp only [Option.some.injEq, Prod.mk.injEq] at h
+        obtain ⟨h1, _⟩ := h
+        subst h1
+        obtain ⟨_, _, hc1⟩ := Interop.publishMedia_emits hs ha hsid (hts it (List.mem_cons_self ..)) hpm
+        have := ih c1 c2 ps2 sid (by rw [hc1]; exact hs) (by rw [hc1]; exact ha) hsid
+          (fun x hx => hts x (List.mem_cons_of_mem _ hx)) hrest
+        rw [this, hc1]
+      · simp at h
+    · simp at h
+
+/-- **media on a publishing pair**: any items, any droppable subset omitted; the server raises exactly
+    the delivered items under the application and key, and the pair is a publishing pair again -/
+theorem publish_items {c c' : Cli.State} {v : Srv.State} {sid : Nat} {app key : Bytes} {mode : Srv.PublishMode}
+    (hr : PublishReady c v sid app key mode) (items : List Interop.Item) (ps : List Ser.Packet) (now : Nat) (mask : List Bool)
+    (hts : ∀ it ∈ items, it.ts < 4294967296) (hpub : Interop.publishAll c items = some (c', ps)) :
+    let kept := keepSel mask (ps.zip (items.map (Interop.Item.msg sid)))
+    ∃ v', SrvPart.drain v now (wire kept) = (v', .ok ((msgs kept).flatMap (Interop.evOf app key))) ∧
+      PublishReady c' v' sid app key mode := by
+  intro kept
+  obtain ⟨core', hd, hl⟩ := Interop.publish_media c c' v items ps sid now app key mode mask hr.cst hr.cact hr.sid32 hts
+    hr.vconn hr.vapp hr.vstream hr.inStep.cs hpub
+  obtain ⟨_, _, hst', hact'⟩ := Interop.publishAll_emits items c c' ps sid hr.cst hr.cact hr.sid32 hts hpub
+  have hdes := publishAll_des items c c' ps sid hr.cst hr.cact hr.sid32 hts hpub
+  exact ⟨_, hd, ⟨hl, by rw [hdes]; exact hr.inStep.sc⟩, hst', hact', hr.sid32, hr.vconn, hr.vapp, hr.vstream⟩
+
+/-- **stop on a publishing pair**: `stop_publishing` returns one packet; delivered, the server raises
+    exactly "publish finished" for the application and key, and forgets the stream -/
+theorem stop_publishing {c c1 : Cli.State} {v : Srv.State} {sid : Nat} {app key : Bytes} {mode : Srv.PublishMode}
+    {now : Nat} {rs : List Cli.Res}
+    (hr : PublishReady c v sid app key mode) (h : Cli.stop c now false = (c1, .ok rs)) :
+    ∃ p v1, rs = [.out p] ∧ SrvPart.drain v now p.bytes = (v1, .ok [.ev (.publishFinished app key)]) ∧
+      InStep c1 v1 ∧ c1.st = .connected ∧ c1.activeStream = none ∧ mapGet sid v1.streams = none := by
+  obtain ⟨p, body, hrs, hp, he, hc1⟩ := stop_ok (play := false) (by simp [hr.cst]) hr.cact hr.sid32 h
+  have hstep : SrvSteps.steps v now (msgs [(p, ({ ts := epoch now, typ := 20, msid := sid, data := body } : Msg))]) = _ :=
+    srv_steps_one v _ now _ _ (by
+      rw [srv_stepMsg_of (deleteStreamCmd_wf sid hr.sid32) hp]
+      exact srv_deleteStream v now _ sid app _ hr.sid32 hr.vconn hr.vapp hr.vstream)
+  obtain ⟨core1, hd, hl⟩ := srv_recv now hr.inStep.cs he hstep
+  rw [wire_one] at hd
+  refine ⟨p, _, hrs, hd, ⟨hl, ?_⟩, by rw [hc1], by rw [hc1], ?_⟩
+  · rw [hc1]; exact hr.inStep.sc
+  · exact mapGet_mapRemove_self sid v.streams
 
 end Rml.Workflow
